@@ -60,11 +60,11 @@ type heapAPI interface {
 	Malloc(size int32) (ptr int32, trap error)
 	Free(ptr int32) (trap error)
 	Globals() (heapPtr, heapTop, freep int32)
-	MemSize() int64                     // bytes of linear memory (real, or the allocator's claim for "go")
-	Read(off, n int64) ([]byte, bool)   // copy-free view where possible; false = out of range
-	Write(off int64, b []byte) bool     // false = out of range or unsupported
-	CanWrite() bool                     // false for the Go wrapper (no write access)
-	TrackLimit() int64                  // blocks larger than this are content-tracked by head/tail windows only
+	MemSize() int64                   // bytes of linear memory (real, or the allocator's claim for "go")
+	Read(off, n int64) ([]byte, bool) // copy-free view where possible; false = out of range
+	Write(off int64, b []byte) bool   // false = out of range or unsupported
+	CanWrite() bool                   // false for the Go wrapper (no write access)
+	TrackLimit() int64                // blocks larger than this are content-tracked by head/tail windows only
 	Close()
 }
 
@@ -145,14 +145,11 @@ func wsText(cfg config) (string, error) {
 
 // ---------------------------------------------------------------- wazero engine
 
-// engine owns one wazero runtime and a cache of compiled modules per
-// (implementation, configuration).
+// engine owns one wazero runtime (per memory limit).
 type engine struct {
-	ctx   context.Context
-	rt    wazero.Runtime
-	cache map[string]wazero.CompiledModule
-	order []string
-	seq   int
+	ctx context.Context
+	rt  wazero.Runtime
+	seq int
 }
 
 var (
@@ -165,7 +162,13 @@ func engineFor(limit int32) (*engine, error) {
 	enginesMu.Lock()
 	defer enginesMu.Unlock()
 	if e := engines[limit]; e != nil {
-		return e, nil
+		if e.seq < 400 {
+			return e, nil
+		}
+		// the vendored wazero retains some per-module data after Close; instances
+		// are strictly sequential here, so recycle the whole runtime now and then
+		e.rt.Close(e.ctx)
+		delete(engines, limit)
 	}
 	ctx := context.Background()
 	// The interpreter keeps per-configuration compilation cheap (every case has
@@ -184,18 +187,15 @@ func engineFor(limit int32) (*engine, error) {
 	if _, err := mb.Instantiate(ctx, rt); err != nil {
 		return nil, err
 	}
-	e := &engine{ctx: ctx, rt: rt, cache: map[string]wazero.CompiledModule{}}
+	e := &engine{ctx: ctx, rt: rt}
 	engines[limit] = e
 	return e, nil
 }
 
-const cacheMax = 128
-
-func (e *engine) compiled(impl string, cfg config) (wazero.CompiledModule, error) {
-	k := impl + ":" + cfg.key()
-	if cm, ok := e.cache[k]; ok {
-		return cm, nil
-	}
+// compile builds the module for one configuration.  Configurations are drawn
+// from a large space, so nothing is cached: the compiled module lives exactly
+// as long as the instance (wzHeap.Close releases both).
+func (e *engine) compile(impl string, cfg config) (wazero.CompiledModule, error) {
 	var text string
 	var err error
 	if impl == "ws" {
@@ -214,14 +214,6 @@ func (e *engine) compiled(impl string, cfg config) (wazero.CompiledModule, error
 	if err != nil {
 		return nil, fmt.Errorf("compile(%s): %v", impl, err)
 	}
-	if len(e.order) >= cacheMax {
-		old := e.order[0]
-		e.order = e.order[1:]
-		e.cache[old].Close(e.ctx)
-		delete(e.cache, old)
-	}
-	e.cache[k] = cm
-	e.order = append(e.order, k)
 	return cm, nil
 }
 
@@ -229,6 +221,7 @@ func (e *engine) compiled(impl string, cfg config) (wazero.CompiledModule, error
 type wzHeap struct {
 	e        *engine
 	impl     string
+	cm       wazero.CompiledModule
 	mod      api.Module
 	mem      api.Memory
 	fnMalloc api.Function
@@ -247,7 +240,7 @@ func newWzHeap(impl string, cfg config) (*wzHeap, error) {
 	if err != nil {
 		return nil, err
 	}
-	cm, err := e.compiled(impl, cfg)
+	cm, err := e.compile(impl, cfg)
 	if err != nil {
 		return nil, err
 	}
@@ -255,12 +248,13 @@ func newWzHeap(impl string, cfg config) (*wzHeap, error) {
 	// malloc.wat exports _start (= wa_malloc_init_once); wazero runs it on instantiation, as in malloc.go
 	mod, err := e.rt.InstantiateModule(e.ctx, cm, wazero.NewModuleConfig().WithName(fmt.Sprintf("%s-%d", impl, e.seq)))
 	if err != nil {
+		cm.Close(e.ctx)
 		return nil, fmt.Errorf("instantiate(%s, %+v): %v", impl, cfg, err)
 	}
-	h := &wzHeap{e: e, impl: impl, mod: mod, mem: mod.Memory(),
+	h := &wzHeap{e: e, impl: impl, cm: cm, mod: mod, mem: mod.Memory(),
 		fnMalloc: mod.ExportedFunction("wa_malloc"), fnFree: mod.ExportedFunction("wa_free")}
 	if h.fnMalloc == nil || h.fnFree == nil || h.mem == nil {
-		mod.Close(e.ctx)
+		h.Close()
 		return nil, fmt.Errorf("%s: wa_malloc/wa_free/memory not exported", impl)
 	}
 	{
@@ -290,7 +284,7 @@ func (h *wzHeap) Globals() (int32, int32, int32) { return h.gPtr(), h.gTop(), h.
 func (h *wzHeap) MemSize() int64                 { return int64(h.mem.Size(h.e.ctx)) }
 func (h *wzHeap) CanWrite() bool                 { return true }
 func (h *wzHeap) TrackLimit() int64              { return 64 << 10 }
-func (h *wzHeap) Close()                         { h.mod.Close(h.e.ctx) }
+func (h *wzHeap) Close()                         { h.mod.Close(h.e.ctx); h.cm.Close(h.e.ctx) }
 
 func (h *wzHeap) Read(off, n int64) ([]byte, bool) {
 	if off < 0 || n < 0 || off+n > h.MemSize() {
